@@ -119,6 +119,26 @@ pub proof fn lemma_extend_wf(old_n: Name, new_n: Name, label: Seq<u8>)
         }
     }
 }
+pub proof fn lemma_subrange_of_concat(a: Seq<u8>, b: Seq<u8>, s: int, e: int)
+    requires 0 <= s <= e <= a.len()
+    ensures (a + b).subrange(s, e) =~= a.subrange(s, e), (a + b).subrange(a.len() as int, (a.len() + b.len()) as int) =~= b
+{}
+// one label of the extended name, by index (no quantifier: keeps the solver query small and stable)
+pub proof fn lemma_extend_label_at(old_n: Name, new_n: Name, label: Seq<u8>, i: int)
+    requires extends(old_n, new_n, label), 0 <= i <= old_n.nlabels()
+    ensures new_n.label(i) == (if i < old_n.nlabels() { old_n.label(i) } else { label })
+{
+    lemma_extend_index(old_n, new_n, label);
+    let n = old_n.nlabels();
+    if i < n {
+        assert(old_n.lstart(i) <= old_n.label_ends@[i] as int <= old_n.label_data@.len());
+        lemma_subrange_of_concat(old_n.label_data@, label, old_n.lstart(i), old_n.lend(i));
+        assert(new_n.lstart(i) == old_n.lstart(i) && new_n.lend(i) == old_n.lend(i));
+    } else {
+        lemma_subrange_of_concat(old_n.label_data@, label, 0, 0);
+        assert(new_n.lstart(i) == old_n.label_data@.len() && new_n.lend(i) == old_n.label_data@.len() + label.len());
+    }
+}
 pub proof fn lemma_extend_labels(old_n: Name, new_n: Name, label: Seq<u8>)
     requires extends(old_n, new_n, label)
     ensures new_n.wf(), new_n.nlabels() == old_n.nlabels() + 1,
@@ -127,14 +147,15 @@ pub proof fn lemma_extend_labels(old_n: Name, new_n: Name, label: Seq<u8>)
 {
     lemma_extend_index(old_n, new_n, label);
     lemma_extend_wf(old_n, new_n, label);
-    reveal(Name::labels);
     let n = old_n.nlabels();
-    assert forall|i: int| 0 <= i < new_n.nlabels() implies #[trigger] new_n.labels()[i] =~= old_n.labels().push(label)[i] by {
-        if i < n {
-            assert(old_n.lstart(i) <= old_n.label_ends@[i] as int <= old_n.label_data@.len());
-            assert(new_n.label(i) =~= old_n.label(i));
-        } else {
-            assert(new_n.label(i) =~= label);
-        }
+    assert forall|i: int| 0 <= i <= n implies new_n.label(i) == (if i < n { old_n.label(i) } else { label }) by {
+        lemma_extend_label_at(old_n, new_n, label, i);
+    }
+    reveal(Name::labels);
+    assert(new_n.labels().len() == n + 1);
+    assert(old_n.labels().push(label).len() == n + 1);
+    assert forall|i: int| 0 <= i < n + 1 implies new_n.labels()[i] == old_n.labels().push(label)[i] by {
+        assert(new_n.labels()[i] == new_n.label(i));
+        if i < n { assert(old_n.labels().push(label)[i] == old_n.labels()[i]); assert(old_n.labels()[i] == old_n.label(i)); }
     }
 }
